@@ -767,6 +767,78 @@ func runIfaces(rng *rand.Rand, prog int, per int, out *progOut) {
 	}
 }
 
+// one-way flavour of every function: packet type 1, same function, the implementation receives the in-arguments
+func runOneWay(rng *rand.Rand, prog int, out *progOut) {
+	for _, it := range ifaces {
+		if it.Prog != prog {
+			continue
+		}
+		for _, fn := range it.Funcs {
+			func() {
+				defer func() {
+					if r := recover(); r != nil {
+						out.Failures = append(out.Failures, failOut{"tars2go/gen/call-panics", fmt.Sprintf("interface %s function %s (one-way): panic in the generated proxy/dispatcher: %v", it.Name, fn.Wire, r)})
+					}
+				}()
+				h := &handler{rng: rng, outs: fn.Outs}
+				px := it.Mk()
+				lb := &loopback{disp: it.Mk(), impl: it.Impl(h), version: basef.TARSVERSION}
+				px.SetServant(lb)
+				m := reflect.ValueOf(px).MethodByName(fn.Go + "OneWayWithContext")
+				where := fmt.Sprintf("interface %s function %s (one-way)", it.Name, fn.Wire)
+				if !m.IsValid() {
+					out.Failures = append(out.Failures, failOut{"tars2go/gen/proxy-method-missing", where + ": no OneWayWithContext method"})
+					return
+				}
+				mt := m.Type()
+				nargs := mt.NumIn() - 2 // context first, variadic opts last
+				if nargs != len(fn.Outs) {
+					out.Failures = append(out.Failures, failOut{"tars2go/gen/proxy-signature", fmt.Sprintf("%s: %d parameters generated, %d declared", where, nargs, len(fn.Outs))})
+					return
+				}
+				args := []reflect.Value{reflect.ValueOf(context.Background())}
+				sent := make([]reflect.Value, nargs)
+				for i := 0; i < nargs; i++ {
+					pt := mt.In(i + 1)
+					if pt.Kind() == reflect.Ptr {
+						p := reflect.New(pt.Elem())
+						if !fn.Outs[i] {
+							fillRandom(rng, p.Elem(), 2)
+						}
+						args = append(args, p)
+						c := reflect.New(pt.Elem()).Elem()
+						c.Set(p.Elem())
+						sent[i] = c
+					} else {
+						v := reflect.New(pt).Elem()
+						fillRandom(rng, v, 2)
+						args = append(args, v)
+						sent[i] = v
+					}
+				}
+				res := m.Call(args)
+				out.Calls++
+				if e := res[len(res)-1]; !e.IsNil() {
+					out.Failures = append(out.Failures, failOut{"tars2go/gen/call-fails", fmt.Sprintf("%s: %v", where, e.Interface())})
+					return
+				}
+				if lb.sawType != 1 || lb.sawFunc != fn.Wire || h.called != fn.Wire {
+					out.Failures = append(out.Failures, failOut{"tars2go/gen/call-wrong-function", fmt.Sprintf("%s: packet type %d, invoked %q, implementation method %q", where, lb.sawType, lb.sawFunc, h.called)})
+					return
+				}
+				for i := 0; i < nargs; i++ {
+					if fn.Outs[i] {
+						continue
+					}
+					if !h.gotIn[i].IsValid() || !valuesEqual(sent[i], h.gotIn[i], nil) {
+						out.Failures = append(out.Failures, failOut{"tars2go/gen/call-argument-differs", fmt.Sprintf("%s: in parameter %d sent %s received %s", where, i, trunc(dumpVal(sent[i]), 300), trunc(dumpVal(h.gotIn[i]), 300))})
+					}
+				}
+			}()
+		}
+	}
+}
+
 func main() {
 	var seed int64 = 1
 	per, calls, nprog := 6, 4, 0
@@ -809,6 +881,7 @@ func main() {
 		}
 		runStructs(rng, p, per, &o)
 		runIfaces(rng, p, calls, &o)
+		runOneWay(rng, p, &o)
 		outs = append(outs, o)
 	}
 	b, _ := json.Marshal(outs)
